@@ -25,6 +25,8 @@ class Ctx:
     # -- facts ----------------------------------------------------------------------------
     @property
     def configs(self):
+        if os.environ.get("SS_CONFIGS"):
+            return os.environ["SS_CONFIGS"].split(",")
         return list(factsmod.THOROUGH_CONFIGS if self.tier == "thorough" else factsmod.QUICK_CONFIGS)
 
     def facts(self, config):
@@ -98,7 +100,7 @@ def finish(ctx, explanation, assumptions, extra_cov=None):
         print("KNOWN-FINDING: property=%s %s — %s" % (ctx.prop, key, k.get("what", v["detail"])))
     replay = None
     if new:
-        rdir = os.path.join(VERIF, "replay")
+        rdir = os.environ.get("SS_REPLAY_DIR") or os.path.join(VERIF, "replay")
         os.makedirs(rdir, exist_ok=True)
         replay = os.path.join(rdir, "%s.json" % ctx.prop)
         with open(replay, "w") as fh:
@@ -148,7 +150,7 @@ def finish(ctx, explanation, assumptions, extra_cov=None):
         wall_s=round(time.time() - ctx.t0, 3),
         violations=len(new),
     )
-    edir = os.path.join(VERIF, "evidence")
+    edir = os.environ.get("SS_EVIDENCE_DIR") or os.path.join(VERIF, "evidence")
     os.makedirs(edir, exist_ok=True)
     with open(os.path.join(edir, "%s.json" % ctx.prop), "w") as fh:
         json.dump(ev, fh, indent=1, sort_keys=True)
